@@ -23,9 +23,9 @@ def _simulate(cfg):
     R0 = [oracles.tolabel(u) for u in cfg.get('R0') or []]
     sim = cfg['sim']
     kw = dict(tmin=cfg['tmin'], return_full_data=True)
-    if cfg.get('ew'):
+    if cfg.get('ew') is not None:
         kw['transmission_weight'] = cfg['ew']
-    if cfg.get('nw'):
+    if cfg.get('nw') is not None:
         kw['recovery_weight'] = cfg['nw']
     tau, gamma = cfg['tau'], cfg['gamma']
     if sim in ('fast_SIR', 'Gillespie_SIR'):
